@@ -97,6 +97,7 @@ func c06ForeignTemplates(res *Result) {
 func runC06(cases string, res *Result) {
 	c06ForeignTemplates(res)
 	c06SwitchedOffAndOn(res)
+	c06RenderedOutsideFirst(res)
 	readCases(cases, func(c Case) {
 		stream := c.str("stream")
 		res.Hist["stream:"+stream]++
